@@ -237,6 +237,45 @@ func findRenames(pkgs []*packages.Package, base *Baseline) []renameEdit {
 				}
 			}
 		}
+		// ---- struct types: a baseline struct that is gone while exactly one new struct has the same field list
+		curStructs := map[string]*ast.TypeSpec{}
+		for _, f := range pk.Syntax {
+			for _, d := range f.Decls {
+				if gd, ok := d.(*ast.GenDecl); ok && gd.Tok == token.TYPE {
+					for _, sp := range gd.Specs {
+						ts := sp.(*ast.TypeSpec)
+						if _, isSt := ts.Type.(*ast.StructType); isSt {
+							curStructs[ts.Name.Name] = ts
+						}
+					}
+				}
+			}
+		}
+		typeRenamed := false
+		for k, was := range base.Structs {
+			p := strings.SplitN(k, "|", 2)
+			if p[0] != pk.PkgPath || curStructs[p[1]] != nil || ast.IsExported(p[1]) {
+				continue
+			}
+			var cands []*ast.TypeSpec
+			for name, ts := range curStructs {
+				if _, inBase := base.Structs[pk.PkgPath+"|"+name]; inBase || ast.IsExported(name) {
+					continue
+				}
+				if strings.Join(structFields(ts.Type.(*ast.StructType)), ";") == strings.Join(was, ";") {
+					cands = append(cands, ts)
+				}
+			}
+			if len(cands) == 1 {
+				if obj := pk.TypesInfo.Defs[cands[0].Name]; obj != nil {
+					out = append(out, renameEdit{obj, p[1], fmt.Sprintf("type %s is treated as the renamed %s (same field list, the only candidate)", cands[0].Name.Name, p[1])})
+					typeRenamed = true
+				}
+			}
+		}
+		if typeRenamed {
+			continue // field type strings change once the type has its name back: fields are matched in the next pass
+		}
 		// ---- struct fields
 		for _, f := range pk.Syntax {
 			for _, d := range f.Decls {
